@@ -22,7 +22,7 @@ func init() {
 			"(e) on the blinded edge SubmitProposal is reachable only through a nil error of the unblinding call, whose nil returns occur only on the arm that received a relay response and where the proposal's content is replaced by that response; " +
 			"(f) a graffiti failure still reaches proposeBlock and an auction failure still reaches the beacon node's Proposal call; (g) what is submitted is the value returned by the signing helper; " +
 			"(h) the auction results pointer is not dereferenced on a path where it may be nil. " +
-			"Added with the third seeding round: (h, extended) results of the package's own (T, error) helpers that can be nil without an error are dereferenced only behind a nil test. Added with the fourth seeding round: (b, extended) every value reaching SetRandaoReveal is the result of SignRANDAOReveal; (e, extended) a tested TryAcquire that succeeded is released on every path. NOT decided: that the relay's full block corresponds to the blinded header (the relay is trusted), BLS validity (C06), retry timing.",
+			"Added with the third seeding round: (h, extended) results of the package's own (T, error) helpers that can be nil without an error are dereferenced only behind a nil test. Added with the fourth seeding round: (b, extended) every value reaching SetRandaoReveal is the result of SignRANDAOReveal; (e, extended) a tested TryAcquire that succeeded is released on every path. Added with the fifth seeding round: (e, extended) the unblinding goroutines never wait for the semaphore with a blocking Acquire; (x) the cross-cutting rules (shadowed results, wrap of nil, nil without error, wait-group balance) inside the proposer and signer. NOT decided: that the relay's full block corresponds to the blinded header (the relay is trusted), BLS validity (C06), retry timing.",
 		Technique: "SSA guard/edge-deletion queries with guard-helper summaries (error-nilness), provenance of call arguments and composite-literal fields, select-arm guards, maybe-nil dereference analysis",
 		Rule:      "one obligation per guarded effect, per signer argument, per signed-container literal field, per nil-able return, per dereference; non-trivial = the construct exists and a path/provenance query was evaluated",
 	})
@@ -522,8 +522,31 @@ func checkSemaphoreProbes(p *core.Prog, r *core.Report, ds *core.Describer, rule
 	return n
 }
 
+// checkNoBlockingAcquire: the goroutines of an unblinding fan-out never wait for the semaphore (Acquire): the context
+// they run under is deliberately not cancelled when a block has been obtained, so a goroutine that arrives second
+// would wait for ever, holding the block.
+func checkNoBlockingAcquire(p *core.Prog, r *core.Report, rule string, f *ssa.Function) int {
+	n := 0
+	for _, wf := range core.WithClosures(f) {
+		if wf == f {
+			continue
+		}
+		for _, ci := range core.Calls(wf, func(c *ssa.CallCommon) bool {
+			callee := c.StaticCallee()
+			return callee != nil && callee.Signature.Recv() != nil && strings.HasSuffix(callee.Signature.Recv().Type().String(), "semaphore.Weighted")
+		}) {
+			n++
+			if ci.Common().StaticCallee().Name() == "Acquire" {
+				r.Violate(rule, core.FnKey(wf)+"|blocking-acquire", p.Pos(ci.Pos()), "a relay's goroutine waits for the semaphore (Acquire) instead of trying it: when two relays deliver the block together the second waits for ever (the context is not cancelled on completion) — one goroutine, holding the block, leaks per such proposal")
+			}
+		}
+	}
+	return n
+}
+
 func checkUnblinder(p *core.Prog, r *core.Report, ds *core.Describer, f *ssa.Function) {
 	checkSemaphoreProbes(p, r, ds, "C05.e", f)
+	checkNoBlockingAcquire(p, r, "C05.e", f)
 	var sel *ssa.Select
 	core.EachInstr(f, func(in ssa.Instruction) {
 		if s, ok := in.(*ssa.Select); ok && s.Blocking {
